@@ -121,6 +121,7 @@ pub mod site {
     pub const RWLOCK_SHARED: u32 = 5;
     pub const RWLOCK_EXCLUSIVE: u32 = 6;
     pub const RWLOCK_SPIN: u32 = 7;
+    pub const MUTEX_UNLOCK: u32 = 8;
     pub const ADD_NODE: u32 = 10;
     pub const GET_OR_INSERT: u32 = 11;
     pub const DROP_TABLE_EDGE: u32 = 12;
